@@ -28,6 +28,12 @@ def corpus():
         "plan 104 %s,start=0 mode=%s dur=30 dur=45 dur=20 dur=10" % (base, u),
         "plan 105 %s,start=0 mode=%s dur=30 dur=45 dur=20 dur=10" % (base, u),
         "plan 500 %s mode=%s dur=30 dur=45" % (base, u),
+        # through the builder (flags -> file -> plan -> api.Trigger): the trigger's duration is the whole plan's, whatever has been skipped
+        "bfile - c:3600000:1/1s;c:1800000:1/1s;c:5000:1/1s;u:7000:2",
+        "bfile 4500000 c:3600000:1/1s;c:1800000:1/1s;c:5000:1/1s;u:7000:2",      # restarted 75 minutes in
+        "bfile 5403000 c:3600000:1/1s;c:1800000:1/1s;c:5000:1/1s;u:7000:2",      # inside the third stage
+        "bfile 5406000 c:3600000:1/1s;c:1800000:1/1s;c:5000:1/1s;u:7000:2",      # inside the last one
+        "bfile 9000000 c:3600000:1/1s;c:1800000:1/1s;c:5000:1/1s;u:7000:2",      # after the plan's end
         "run prop=C15 mode=file dur=1000 conc=3 file=c:400:3/100ms;c:30000:3/100ms body=5",   # run cut short in the middle of a stage
         "run prop=C15 mode=file dur=3000 conc=3 file=u:200:2;c:300:3/100ms;c:200:2/50ms body=5",
         "run prop=C15 mode=file dur=4000 conc=3 file=c:200:2/100ms;c:200:2/100ms;c:200:2/100ms;c:200:2/100ms;c:200:2/100ms body=1",
